@@ -115,9 +115,9 @@ def heap_excesses(js):
     """which measured numbers exceed the thresholds: list of (kind, what, value, limit)"""
     bad = []
     for k in js.get("kinds", []):
-        for what in ("query_bytes_per_op", "overwrite_bytes_per_op", "churn_bytes_per_op"):
+        for what in ("query_bytes_per_op", "overwrite_bytes_per_op", "churn_bytes_per_op", "worst_single_method_bytes_per_call"):
             if k.get(what, 0) > HEAP_BYTES_PER_OP:
-                bad.append((k["kind"], what, k[what], HEAP_BYTES_PER_OP))
+                bad.append((k["kind"], what + ((" (" + k.get("worst_single_method", "") + ")") if what.startswith("worst") else ""), k[what], HEAP_BYTES_PER_OP))
         if k.get("empty_after_deletes_bytes", 0) > HEAP_EMPTY_RETAINED:
             bad.append((k["kind"], "empty_after_deletes_bytes", k["empty_after_deletes_bytes"], HEAP_EMPTY_RETAINED))
         if not k.get("size_ok", True):
@@ -126,7 +126,14 @@ def heap_excesses(js):
         lim = max(1024, 8 * k.get("longest_sort_key", 0))
         if ln > lim:
             bad.append((k["kind"], "collation_buf_len_after_queries", ln, lim))
+    for b in js.get("bulk", []):
+        # what stays after a large dense tree was emptied must not depend on its peak (pooled nodes are the collector's to reclaim)
+        if b.get("retained_after_deleting_everything", 0) > HEAP_BULK_RETAINED:
+            bad.append((b["kind"], "bulk: retained after deleting %d keys (peak %d B)" % (b.get("keys", 0), b.get("peak_bytes", 0)),
+                        b["retained_after_deleting_everything"], HEAP_BULK_RETAINED))
     return bad
+
+HEAP_BULK_RETAINED = 512 * 1024
 
 def run_heap(ctx):
     from vprops import finish, proof_leg, report_violation, corpus_replays
